@@ -388,6 +388,10 @@ def axi_writer_bench(name, fifo_depth=2, buffered=False, aw=6, dw=16, bit=None):
 
 CONFIGS = {
     "reader_d2": (reader_bench, dict(fifo_depth=2), 18, 32, "qt"),
+    "reader_d2_buffered": (reader_bench, dict(fifo_depth=2, buffered=True), 16, 28, "qt"),
+    "reader_d1_buffered": (reader_bench, dict(fifo_depth=1, buffered=True), 14, 24, "qt"),
+    "reader_d1": (reader_bench, dict(fifo_depth=1), 0, 24, "t"),
+    "writer_d1_buffered": (writer_bench, dict(fifo_depth=1, buffered=True), 0, 24, "t"),
     "reader_d4_bit0": (reader_bench, dict(fifo_depth=4, bit=0), 17, 30, "qt"),
     "reader_d4_bit7": (reader_bench, dict(fifo_depth=4, bit=7), 0, 30, "t"),
     "reader_d4_buffered_bit3": (reader_bench, dict(fifo_depth=4, buffered=True, bit=3), 17, 30, "qt"),
